@@ -2,7 +2,9 @@
 # Prints the markdown table of /verif/seeded/*/meta.json for DESIGN.md section 10.7.
 import json,glob,re
 rows=[]
-for d in sorted(glob.glob('/verif/seeded/*/')):
+def _k(d):
+    n=d.rstrip('/').split('/')[-1]; a,b=n.split('-m'); return (a,int(b))
+for d in sorted(glob.glob('/verif/seeded/*/'),key=_k):
     m=json.load(open(d+'meta.json'))
     name=d.rstrip('/').split('/')[-1]
     w=m['what_was_changed_and_what_it_needs_to_manifest'].strip().split('\n')[0]
